@@ -7,6 +7,35 @@ VERIF = os.path.dirname(os.path.dirname(os.path.abspath(__file__)))
 ALL = ["C%02d" % i for i in range(1, 21)]
 
 CHECKS = {
+    "C01": dict(
+        engine="tlc+replay",
+        technique="TLA+ spec of tensor convolution (Convolution.tla: Src/tap table, CfgG transport) model-checked by TLC for tap-table covariance under every g and cyclic shifts; tap tables and integer value cases replayed exactly into geom.convolve; equivariance re-evaluated exactly on the code",
+        category="model_checking",
+        text=("TLC checks Covariant(g,c) -- the tap table of the transported configuration is the transported tap table, "
+              "ZERO to ZERO, output extents transported -- for every admissible unit-stride cell of the bounded option "
+              "lattice (all padding kinds incl. even filters with literal padding, mixed torus flags, filter and image "
+              "dilation, non-square) x all 8 elements of B_2 (B_3: three generators, closure checked), plus the translation "
+              "law on toroidal axes and the value-level law (g.A)*(g.C)=g.(A*C) on integer images. A seeded sub-sample "
+              "of cells is bound to the code by exact tap-table comparison (one geom.convolve call reveals the table; "
+              "bilinearity => all real inputs), and the equation is also evaluated exactly on the code for random integer "
+              "images of all (k,p)x(k',p') via geom.convolve and GeometricImage.convolve_with."),
+        design_ref="DESIGN.md 4 C01",
+        note="Trusted: TLC/SANY/Json, numpy, float32 exactness on small integers, C02's binding of the code's group action. Bounded lattice (N<=3-5, M<=3-4, dilations<=2-3).",
+    ),
+    "C04": dict(
+        engine="tlc+replay",
+        technique="TLA+ definition of convolution in every mode (Convolution.tla) checked by TLC for the size formula and well-defined sources over the full option lattice; TLC-computed tap tables and integer convolutions replayed exactly into geom.convolve / convolve_ravel / convolve_contract / convolve_with",
+        category="model_checking",
+        text=("TLC enumerates the admissible cells of the option lattice (5 padding kinds, all torus flags, strides, both "
+              "dilations, odd/even and non-square filters, d=2,3) checking the size formula and that every tap source is "
+              "ZERO or inside the image; for a seeded sub-sample the tap table is compared exactly with the code's "
+              "(token image x one-hot filters), which decides those cells for all real inputs by bilinearity. Channel, "
+              "batch and tensor-index layout, the raveled-layout contract, the fused contract and the declared type are "
+              "decided by exact comparison with TLC-evaluated Convolve/ConvContract on random integer batches; "
+              "bilinearity of the code path itself is sampled on floats."),
+        design_ref="DESIGN.md 4 C04",
+        note="Trusted: TLC/SANY/Json, numpy, float32 exactness. Cells outside the lattice bounds and unsampled cells are not bound to the code.",
+    ),
     "C02": dict(
         engine="tlc+replay",
         technique="TLA+ spec of B_d and its action (Hyperoctahedral, GeomImage!Act) model-checked by TLC; spec-generated signed permutations replayed exactly into the three code entry points",
